@@ -41,7 +41,7 @@ def _scenarios(prop, rng):
     K = lambda i: [1] + [ord(c) for c in 'p%04d' % i]
     out = []
     if prop == 'C03':
-        n = 230
+        n = 260          # 130 items per tag: more than one page of 100 whatever the 25 deletions hit
         ops = [{'op': 'set', 'a': {'k': K(i), 'v': i % 7, 'ttl': [], 'tag': 1 + (i % 2)}} for i in range(n)]
         dele = sorted(rng.sample(range(n), 25))
         ops += [{'op': 'delete', 'a': {'k': K(i), 'mk': 'false'}} for i in dele]
@@ -129,6 +129,8 @@ def run(prop, tier, seed):
         jobs.append((cfg, ops, seed, tid))
     out.notes['plans_replayed'] = len(jobs)
     # ---- scenarios + random histories -------------------------------------
+    # (their own generator: the number of plans TLC produces within its time limit must not change what follows)
+    rng = random.Random(seed * 1000003 + int(prop[1:]) + 77)
     for cfg, ops in _scenarios(prop, rng):
         tid += 1
         jobs.append((cfg, ops, seed, tid))
